@@ -19,7 +19,7 @@ theorem C03_shapes :
     ∧ Gen.C03.enumIsDictStr = true ∧ Gen.C03.arrowObjIsBinary = true ∧ Gen.C03.setIsList = true ∧ Gen.C03.dictIsMap = true
     ∧ Gen.C03.compactTypes.map Prod.fst = ["bytes", "str", "int", "float", "bool"]
     ∧ Gen.C03.setRecurses = true ∧ Gen.C03.dictRecurses = true ∧ Gen.C03.compactRefusesExplicit = true
-    ∧ Gen.C03.enumFallbackByValue = true ∧ Gen.C03.buildsDictionaryFree = true
+    ∧ Gen.C03.enumFallbackByValue = true ∧ Gen.C03.buildsDictionaryFree = true ∧ Gen.C03.transientFactoryPerInstance = true
     ∧ Gen.C03.serBranches = ["None", "exact-scalar", "Schema", "RecordBatch", "ArrowSerializableDataclass",
         "_BytesSerializable", "Enum", "frozenset", "dict", "list"]
     ∧ Gen.C03.deserBranches = ["None", "Schema", "RecordBatch", "deserialize_from_bytes", "Enum", "dataclass-dict",
@@ -27,7 +27,7 @@ theorem C03_shapes :
     ∧ Gen.C03.compactMarker ≠ Gen.C03.ipcFirstByte ∧ Gen.C03.compactMarker ≠ Gen.C03.unionMarker
     ∧ Gen.C03.unionMarker ≠ Gen.C03.ipcFirstByte
     ∧ Gen.C03.compactMarker < 256 ∧ Gen.C03.unionMarker < 256 ∧ Gen.C03.tagMax = 65535 := by
-  refine ⟨rfl, rfl, rfl, rfl, rfl, by decide, rfl, rfl, rfl, rfl, rfl, by decide, by decide, by decide, by decide, by decide,
+  refine ⟨rfl, rfl, rfl, rfl, rfl, by decide, rfl, rfl, rfl, rfl, rfl, rfl, by decide, by decide, by decide, by decide, by decide,
     by decide, by decide, rfl⟩
 
 /-- Round trip of a value of any supported annotation, any nesting depth: converted, stored in a typed Arrow column,
